@@ -267,11 +267,13 @@ func specInScope(stack []scope, n int, s scope) bool {
 //@   ensures[C06] never-nil-on-success: err == nil ==> result0 != nil
 //
 //@ func (*Parser).evaluateFunctionDefinition
+//@   callsite addVariables requires[C07,C09] parameters-are-never-globals: !arg2
 //@   ensures[C07] second-function-of-the-same-name-rejected: old(specHasFunction(ctx, p.peekAt(1).value, p.prefix)) ==> err != nil
 //@   ensures[C06] parameters-always-checked: err == nil ==> asType(result0, "parser.FunctionDefinition").params != nil
 //@   ensures[C07] only-at-top-level: !ctx.global() ==> err != nil
 //
 //@ func (*Parser).evaluateSwitch
+//@   loop @"CLOSING_CURLY_BRACKET" invariant[C01,C12] the-token-decided-on-is-the-current-token: nextToken == p.peek()
 //@   loop @"CLOSING_CURLY_BRACKET" invariant[C01] one-branch-per-case: (useMock ==> calls(evaluateExpression) == ite(old(p.peekAt(1)).tokenType == lexer.OPENING_CURLY_BRACKET, 0, 1) && len(fakeIf.elifBranches) == 0) && (!useMock ==> 1 + len(fakeIf.elifBranches) == calls(evaluateExpression) - ite(old(p.peekAt(1)).tokenType == lexer.OPENING_CURLY_BRACKET, 0, 1))
 //@   ensures[C01] one-branch-per-case-in-order: err == nil && calls(evaluateExpression) > ite(old(p.peekAt(1)).tokenType == lexer.OPENING_CURLY_BRACKET, 0, 1) ==> isType(result0, "parser.If") && 1 + len(asType(result0, "parser.If").elifBranches) == calls(evaluateExpression) - ite(old(p.peekAt(1)).tokenType == lexer.OPENING_CURLY_BRACKET, 0, 1)
 //
@@ -371,6 +373,7 @@ func specInScope(stack []scope, n int, s scope) bool {
 //@   ensures[C06] every-condition-boolean: err == nil ==> isType(result0, "parser.If") && specTyped(asType(result0, "parser.If").ifBranch.condition) && asType(result0, "parser.If").ifBranch.condition.ValueType().IsBool() && forall(k, 0, len(asType(result0, "parser.If").elifBranches), specTyped(asType(result0, "parser.If").elifBranches[k].condition) && asType(result0, "parser.If").elifBranches[k].condition.ValueType().IsBool())
 //
 //@ func (*Parser).evaluateFor
+//@   callsite addVariables requires[C07,C09] loop-variables-are-never-globals: !arg2
 //@   ensures[C01] plain-assignment-accepted-as-init: err != nil && calls(evaluateStatement) == 1 && res(evaluateStatement, 0, 1) == nil && calls(evaluateExpression) == 0 && calls(evaluateBlock) == 0 && res(evaluateStatement, 0, 0).StatementType() == STATEMENT_TYPE_VAR_ASSIGNMENT ==> hasPrefix(errmsg(err), "expected \";\"")
 //@   ensures[C06] condition-boolean: err == nil ==> isType(result0, "parser.For") && specTyped(asType(result0, "parser.For").condition) && asType(result0, "parser.For").condition.ValueType().IsBool()
 //
@@ -386,6 +389,8 @@ func specInScope(stack []scope, n int, s scope) bool {
 //@   ensures[C13] at-least-one-name: err == nil ==> len(result0) >= 1
 //
 //@ func (*Parser).evaluateCompoundAssignment
+//@   ensures[C06] exactly-one-value-on-the-right: err == nil ==> len(res(evaluateValues, 0, 0).values) == 1 && !res(evaluateValues, 0, 0).isMultiReturnCall()
+//@   ensures[C02] the-target-is-the-defined-variable: err == nil ==> len(asType(result0, "parser.VariableAssignment").variables) == 1 && has(ctx.variables, specVarKey(ctx, res(evaluateVarNames, 0, 0)[0].value, p.prefix)) && asType(result0, "parser.VariableAssignment").variables[0] == get(ctx.variables, specVarKey(ctx, res(evaluateVarNames, 0, 0)[0].value, p.prefix))
 //@   loop @"range values" invariant[C06] types-of-the-values: len(valuesTypes) == rangeindex + 1 && forall(k, 0, rangeindex + 1, valuesTypes[k] == res(evaluateValues, 0, 0).values[k].ValueType())
 //@   ensures[C06] typed-operation-on-the-defined-variable: err == nil ==> isType(result0, "parser.VariableAssignment") && len(asType(result0, "parser.VariableAssignment").values) == 1 && specTyped(asType(result0, "parser.VariableAssignment").values[0])
 //
